@@ -16,6 +16,9 @@ use crate::spec::{self, Catalog, NodeSpec, RefT, TreeParams, ValSpec};
 
 #[derive(Clone, Debug, Serialize, Deserialize, PartialEq)]
 pub struct DetTrace {
+    /// Save the children of the tree's root as several roots instead of the root.
+    #[serde(default)]
+    pub multi_root: bool,
     pub tree: NodeSpec,
     /// Environment kinds to compare with the canonical one.
     pub envs: Vec<u8>,
@@ -457,7 +460,8 @@ impl Engine for DetSim {
         let mut envs: Vec<u8> = (1..ENV_NAMES.len() as u8).collect();
         r.shuffle(&mut envs);
         envs.truncate(r.range(2, 4) as usize);
-        serde_json::to_value(&DetTrace { tree, envs, env_seed_salt: r.next_u64() >> 16 }).unwrap()
+        let multi_root = tree.children.len() >= 2 && r.chance(1, 3);
+        serde_json::to_value(&DetTrace { multi_root, tree, envs, env_seed_salt: r.next_u64() >> 16 }).unwrap()
     }
 
     fn execute(&self, trace: &Value, ctx: &mut RunCtx) {
@@ -472,10 +476,18 @@ impl Engine for DetSim {
         crate::env::rewind();
         let (dom0, root0) = build_env(&t.tree, 0, t.env_seed_salt);
         let canon0 = spec::canon_dom(&dom0);
+        let selection = |dom: &WeakDom, root: Ref| -> Vec<Ref> {
+            if t.multi_root {
+                dom.get_by_ref(root).map(|i| i.children().to_vec()).unwrap_or_default()
+            } else {
+                vec![root]
+            }
+        };
+        let sel0 = selection(&dom0, root0);
         let mut base: Vec<Saved> = Vec::new();
         for f in FORMATS {
             ctx.evals += 1;
-            let s = save(*f, &dom0, &[root0]);
+            let s = save(*f, &dom0, &sel0);
             ctx.count(&format!("canonical_outcome:{}:{}", f.tag(), s.class()));
             // Cross-process comparison label: outcome class and bytes of the canonical build.
             ctx.outputs.push((format!("{}|save", f.tag()), s.digest()));
@@ -498,7 +510,7 @@ impl Engine for DetSim {
             for (fi, f) in FORMATS.iter().enumerate() {
                 ctx.evals += 1;
                 serializer_history(*f, *env, &dom, t.env_seed_salt);
-                let s = save(*f, &dom, &[root]);
+                let s = save(*f, &dom, &selection(&dom, root));
                 ctx.log.u64(s.digest());
                 if s.class() != base[fi].class() {
                     ctx.violate(
